@@ -164,6 +164,24 @@ theorem resolve_none_iff (ms : List α) : ∀ (pk : List α), resolve pk ms = no
 theorem resolve_length (ms : List α) : ∀ (pk : List α) (is : List Nat), resolve pk ms = some is → is.length = pk.length
   | pk, is, h => resolves_length ms pk is ((resolve_iff ms pk is).mp h)
 
+/-- without duplicate marker names "first" is vacuous: ANY index list that names the key columns exactly is the resolution -/
+theorem resolves_of_exact (ms : List α) (hnd : ms.Nodup) : ∀ (pk : List α) (is : List Nat), is.length = pk.length →
+    (∀ (k : Nat) (n : α) (i : Nat), pk[k]? = some n → is[k]? = some i → ms[i]? = some n) → Spec.Resolves ms pk is
+  | [], [], _, _ => trivial
+  | [], _ :: _, hl, _ => by simp at hl
+  | _ :: _, [], hl, _ => by simp at hl
+  | n :: ns, i :: is, hl, h => by
+    have hi : ms[i]? = some n := h 0 n i rfl rfl
+    refine ⟨⟨hi, ?_⟩, resolves_of_exact ms hnd ns is (by simpa using hl)
+      (fun k n' i' hn hi' => h (k + 1) n' i' (by simpa using hn) (by simpa using hi'))⟩
+    intro j hj hjn
+    have hlt : i < ms.length := by
+      rcases Nat.lt_or_ge i ms.length with h' | h'
+      · exact h'
+      · simp [List.getElem?_eq_none h'] at hi
+    have := (List.getElem?_inj hlt hnd).mp (hi.trans hjn.symm)
+    omega
+
 /-! ### the loops of the code (index and type together) and the resolution on names -/
 
 theorem firstBound_some (n : α) : ∀ (ms : List (Marker α τ)) (k i : Nat) (t : τ), firstBound n ms k = some (i, t) →
